@@ -55,7 +55,8 @@ def convert_filenames_to_dict(filenames, include_prefix_dfs=False):
     result_filenames = {}
     dataframe_names = constants.DF_SUFFIXES_OMN if include_prefix_dfs else constants.DF_SUFFIXES
     if isinstance(filenames, str):
-        if filenames.endswith(".tsv"):
+        # Same rule as save_dataframes: the .tsv suffix is recognised in any letter case.
+        if filenames.lower().endswith(".tsv"):
             base, base_ext = os.path.splitext(filenames)
         else:
             # Load as foldername/foldername_suffix.tsv
